@@ -11,8 +11,15 @@ from harness import fm_common as FM
 RULE = ('real TransmissionModel (compact and inflated atmospheres: top at 0.01..several Rp), 2-40 layers, 1-6 wavenumbers, 1-4 trace gases with in-memory tables whose magnitude '
         'is drawn per case from {0, 1e-40..1e-34, 1e-28..1e-22, 1e-18..1} m2, isothermal/array/NPoint temperatures, '
         'optional CIA/Rayleigh/cloud/flat haze/Lee haze, both path methods; every 5th case reuses ONE model object '
-        'across 2-3 parameter changes through model[name]=value (T, Rp, Mp, pressure range, abundances, cloud top). distinct non-trivial = distinct '
+        'across 2-3 parameter changes through model[name]=value (T, Rp, Mp, pressure range, abundances, cloud top - half of the time '
+        'stepped exactly onto a layer pressure). Quotas, one case in ten each: molecules tabulated on wavenumber grids of their OWN '
+        '(3-8 points; as many points as the native grid between the same limits / shifted by a fraction of the spacing / fewer points '
+        'off the native ones / the mid-points) and a cloud deck whose top is exactly on / one ulp above / one ulp below a layer pressure, '
+        'on a level, outside the grid; for every case the absorption cross-section on the grid of the run is rebuilt from the molecules\' '
+        'own tables by the Lean model (AbsorptionGrid.absSigma) and the cloud deck is tau = inf for P >= P0 (Haze.cloudSigma), compared '
+        'with the prepared contributions, and the documented integral is evaluated with them. distinct non-trivial = distinct '
         '(layers, contribution multiset, regime, method) with at least one column neither transparent nor saturated')
+USES_MODELS = ['C19']
 ASSUMPTIONS = ['3-D line/sphere geometry (taurex/util/geometry.py): modelled step by step (Geometry.lean), proved equal to '
                'the closed-form chord differences (path3d_eq_chordNew); model.path_length is compared with both (rel '
                '1e-9 + 1e-11 of the total chord); NaN of sqrt(negative discriminant) + np.isfinite = the test 0 <= delta '
@@ -22,7 +29,11 @@ ASSUMPTIONS = ['3-D line/sphere geometry (taurex/util/geometry.py): modelled ste
                'numba kernels contribute_tau/contribute_cia and np.sum/np.exp behave as documented; rounding not '
                'modelled: tau compared to 1e-9 relative (transmittance to 1e-9*(1+tau))',
                'contribution sigma_xsec arrays are taken from the real prepared contributions (their construction is '
-               'C03/C04/C19)',
+               'C03/C04/C19), EXCEPT the two the documented integral names directly: the absorption cross-section on the grid '
+               'of the run is rebuilt from each molecule\'s values on its OWN wavenumber grid (compute_opacity at the layer\'s '
+               '(T, P): C04; mixing ratios: C10) by the Lean model AbsorptionGrid.absSigma (own points selected, other points '
+               'interpolated between the bracketing native points), and the cloud deck is tau = inf for P >= P0 (Haze.cloudSigma, '
+               'driver of C19); the documented integral is evaluated with these',
                'licensed deviation: a layer row may differ from the uncut integral only if every wavenumber of the row '
                'is below exp(-10) and not below the uncut transmittance']
 
@@ -188,25 +199,105 @@ def doc_depth(rp, rs, z, dz, trans):
 CONTRIB_CHOICES = ['cia', 'rayleigh', 'clouds', 'flatmie', 'leemie']
 
 
+def layer_pressures(nl, pmin, pmax):
+    """(levels, layer pressures) of the atmosphere as the model's own SimplePressureProfile computes them"""
+    from taurex.data.profiles.pressure import SimplePressureProfile
+    pp = SimplePressureProfile(nlayers=int(nl), atm_min_pressure=float(pmin), atm_max_pressure=float(pmax))
+    pp.compute_pressure_profile()
+    return np.array(pp.pressure_profile_levels, float), np.array(pp.profile, float)
+
+
+CLOUD_TOPS = ['between-layers', 'on-layer', 'ulp-above-layer', 'ulp-below-layer', 'on-level', 'outside-grid']
+
+
+def cloud_top(rng, spec, cls):
+    """cloud-top pressure of a given class relative to the layer pressures of the atmosphere"""
+    lev, P = layer_pressures(spec['nlayers'], spec['pmin'], spec['pmax'])
+    i = int(rng.integers(0, len(P)))
+    if cls == 'on-layer':
+        return float(P[i])
+    if cls == 'ulp-above-layer':
+        return float(np.nextafter(P[i], np.inf))
+    if cls == 'ulp-below-layer':
+        return float(np.nextafter(P[i], 0.0))
+    if cls == 'on-level':
+        return float(lev[int(rng.integers(0, len(lev)))])
+    if cls == 'outside-grid':
+        return float(spec['pmax'] * 10 ** rng.uniform(0.01, 2)) if rng.random() < 0.5 else float(spec['pmin'] * 10 ** rng.uniform(-2, -0.01))
+    return float(spec['pmin'] * (spec['pmax'] / spec['pmin']) ** rng.uniform(0.0, 1.0))
+
+
+GRID_CLASSES = ['equal-count-inside', 'equal-count-shifted', 'fewer-points-off-native', 'interleaved']
+
+
+def regrid(rng, spec, cls):
+    """put every molecule but the first on a wavenumber grid of its own that is NOT a sub-sample of the first one's: as many
+    points between the same limits, as many points shifted beyond one end, fewer points off the native ones, or the
+    mid-points.  Tables are redrawn with the shape of the new grid (same magnitude regime)."""
+    wn = np.asarray(spec['opacities'][0]['wn'], float)
+    nw = len(wn)
+    r = FM.REGIMES[spec['regime']]
+    for i, o in enumerate(spec['opacities']):
+        if i == 0:
+            continue
+        inner = np.sort(rng.uniform(wn[0], wn[-1], size=max(nw - 2, 0)))
+        if cls == 'equal-count-inside':
+            gw = np.concatenate([[wn[0]], inner, [wn[-1]]]) if rng.random() < 0.5 else \
+                np.sort(rng.uniform(wn[0], wn[-1], size=nw))
+        elif cls == 'equal-count-shifted':
+            sh = float(rng.uniform(0.1, 0.9)) * float(np.min(np.diff(wn))) * (1 if rng.random() < 0.5 else -1)
+            gw = wn + sh
+        elif cls == 'fewer-points-off-native':
+            m = int(rng.integers(2, nw))
+            gw = np.sort(rng.uniform(wn[0] - 5.0, wn[-1] + 5.0, size=m))
+        else:
+            gw = (wn[:-1] + wn[1:]) / 2
+        gw = np.unique(gw)
+        new = FM.gen_opacity(rng, o['mol'], gw, r[0], r[1], nT=len(o['t']), nP=len(o['p']))
+        o['wn'], o['xsec'] = new['wn'], new['xsec']
+        o['t'], o['p'] = new['t'], new['p']
+    spec['grid_class'] = cls
+    return spec
+
+
 def gen_case(rng, k):
     regime = ['zero', 'thin', 'mid', 'thick'][k % 4]
     nl = int(rng.integers(2, 41)) if rng.random() < 0.8 else int(rng.integers(2, 5))
     # quota of inflated atmospheres (top at 0.4 .. several Rp), mostly with the 3-D geometry path method
     ext = bool((k // 8) % 3 == 2)
-    spec = FM.gen_spec(rng, nlayers=nl, regime=regime, same_grid=bool(rng.random() < 0.8), extended=ext)
+    # quota (one case in ten): molecules tabulated on wavenumber grids of their OWN (not sub-samples of one another)
+    own_grids = k % 10 == 3
+    if own_grids:
+        regime = ['thin', 'mid', 'thick'][(k // 10) % 3]
+        spec = FM.gen_spec(rng, nlayers=nl, nwn=int(rng.integers(3, 9)), ngas=int(rng.integers(2, 5)), regime=regime,
+                           same_grid=True, extended=ext)
+        spec = regrid(rng, spec, GRID_CLASSES[(k // 10) % 4])
+    else:
+        spec = FM.gen_spec(rng, nlayers=nl, regime=regime, same_grid=bool(rng.random() < 0.8), extended=ext)
     spec['new_path_method'] = bool((k // 4) % 2) or (ext and bool(rng.random() < 0.5))
     cs = []
     if rng.random() < 0.9:
         cs.append(dict(type='absorption'))
     extra = [c for c in CONTRIB_CHOICES if rng.random() < 0.3]
+    # quota (one case in ten): a grey cloud deck whose top is placed relative to the LAYER pressures of the atmosphere
+    deck = k % 10 == 7
+    if own_grids and 'absorption' not in [c['type'] for c in cs]:
+        cs.append(dict(type='absorption'))
+    if deck:
+        extra = [c for c in extra if c != 'clouds'] + ['clouds']
     if regime == 'zero':
-        extra = [c for c in extra if c == 'cia']          # nothing absorbs: zero tables only
+        extra = [c for c in extra if c == 'cia' or (deck and c == 'clouds')]      # nothing (but the deck) absorbs: zero tables only
     for c in extra:
         if c == 'cia':
             if spec['cia']:
                 cs.append(dict(type='cia', pairs=[x['pair'] for x in spec['cia']]))
         elif c == 'rayleigh':
             cs.append(dict(type='rayleigh'))
+        elif c == 'clouds' and deck:
+            cls = ['on-layer', 'ulp-above-layer', 'on-layer', 'ulp-below-layer', 'on-level', 'on-layer', 'outside-grid',
+                   'between-layers'][(k // 10) % 8]
+            cs.append(dict(type='clouds', clouds_pressure=cloud_top(rng, spec, cls)))
+            spec['cloud_top_class'] = cls
         elif c == 'clouds':
             cs.append(dict(type='clouds', clouds_pressure=float(spec['pmin'] * (spec['pmax'] / spec['pmin']) **
                                                                 rng.uniform(-0.2, 1.2))))
@@ -252,7 +343,8 @@ def small(spec):
     return dict(nlayers=spec['nlayers'], regime=spec.get('regime'), new_path_method=spec['new_path_method'],
                 contributions=[c['type'] for c in spec['contributions']], temperature=spec['temperature']['type'],
                 ngas=len(spec['gases']), pmin=spec['pmin'], pmax=spec['pmax'], planet_radius=spec['planet_radius'],
-                planet_mass=spec['planet_mass'], star_radius=spec['star_radius'])
+                planet_mass=spec['planet_mass'], star_radius=spec['star_radius'], grid_class=spec.get('grid_class'),
+                cloud_top_class=spec.get('cloud_top_class'))
 
 
 def trans_close(a, b, rel=1e-9):
@@ -270,6 +362,65 @@ def observe(m):
     p = FM.profiles(m)
     contribs = [(KINDS.get(type(c).__name__, 0), np.array(c.sigma_xsec, float)) for c in m.contribution_list]
     return np.asarray(wn, float), np.asarray(depth, float), np.asarray(trans, float), p, contribs
+
+
+def documented_sigmas(ctx, m, spec, wn, p, contribs, case):
+    """the cross-sections the documented integral names, built WITHOUT the contribution objects: for the absorption
+    contribution sum_gas xsec_gas(T_l, P_l)(wn) * mix_gas[l], every molecule read on its own wavenumber grid and carried to
+    the grid of the run by the Lean model (AbsorptionGrid.absSigma); for the grey cloud deck tau = inf where P >= P0.  The
+    real contributions' sigma_xsec are compared with them (mismatch); the list returned has them substituted."""
+    from taurex.cache import OpacityCache
+    out = list(contribs)
+    cloud_model = None
+    n = p['nlayers']
+    for i, c in enumerate(m.contribution_list):
+        name = type(c).__name__
+        if name == 'AbsorptionContribution':
+            gases = []
+            kinds = set()
+            for g in m.chemistry.activeGases:
+                op = OpacityCache()[g]
+                gw = np.asarray(op.wavenumberGrid, float)
+                vals = [np.asarray(op.opacity(float(t), float(pr)), float) for t, pr in zip(p['T'], p['P'])]
+                gases.append((gw, vals, np.asarray(m.chemistry.get_gas_mix_profile(g), float)))
+                inside = gw[(gw >= wn.min()) & (gw <= wn.max())]
+                kinds.add('same' if np.array_equal(gw, wn) else 'own-points-selected' if np.array_equal(inside, wn) else
+                          'equal-count-other-points' if len(inside) == len(wn) else 'interpolated')
+            d = ctx.model().call('c01.abssigma', C.N(n), C.L(wn),
+                                 C.L(gases, lambda g: C.L(g[0]) + ' ' + C.LL([v.tolist() for v in g[1]]) + ' ' + C.L(g[2])))
+            doc = np.array(d.list(lambda: d.list()), float).reshape(n, len(wn))
+            for kk in kinds:
+                ctx.bucket('table-grid-vs-run-grid:' + kk)
+            ctx.disagreements_checked += 1
+            if not C.close(np.ravel(contribs[i][1]), np.ravel(doc), rel=1e-9, abs_=1e-300):
+                ctx.mismatch('AbsorptionContribution.sigma_xsec vs AbsorptionGrid.absSigma (tables on their own grids)', case,
+                             dict(impl=contribs[i][1][:3], model=doc[:3], wn=wn, grids=[g[0] for g in gases]))
+            out[i] = (contribs[i][0], doc)
+        elif name == 'SimpleCloudsContribution':
+            p0 = [x for x in spec['contributions'] if x['type'] == 'clouds'][0]['clouds_pressure']
+            doc = np.where((p['P'] >= p0)[:, None], np.inf, 0.0) * np.ones((n, len(wn)))
+            doc[np.isnan(doc)] = 0.0
+            P = p['P']
+            ctx.bucket('cloud-top:' + ('on-layer' if np.any(P == p0) else 'ulp-off-layer' if
+                                       np.any((np.nextafter(P, np.inf) == p0) | (np.nextafter(P, 0.0) == p0)) else
+                                       'outside-grid' if (p0 > P[0] or p0 < P[-1]) else 'between-layers'))
+            # the Lean model of the deck (C19's driver): exp(-tau) and depth of [deck] ++ the other contributions
+            rest = [ks for j, ks in enumerate(contribs) if j != i]
+            new = bool(spec['new_path_method'])
+            d = ctx.model('C19').call('c19.cloud', C.N(1 if new else 0), C.F(p['rp']), C.F(p['rs']), C.L(p['z']), C.L(p['dz']),
+                                      C.L(p['zb']), C.L(p['density']), C.N(len(wn)), C.L(P), C.F(p0),
+                                      C.L(rest, lambda ks: C.N(ks[0]) + ' ' + C.LL(ks[1].tolist())))
+            mtr = np.array(d.list(lambda: d.list()), float).reshape(n, len(wn))
+            mdepth = np.array(d.list(), float)
+            ctx.disagreements_checked += 1
+            with np.errstate(over='ignore'):
+                if i != 0 or not np.array_equal(np.exp(-contribs[i][1]) == 0.0, np.exp(-doc) == 0.0):
+                    ctx.mismatch('SimpleClouds.sigma_xsec vs Haze.cloudSigma (opaque exactly where P >= P0; first in the list)',
+                                 case, dict(p0=p0, P=P, impl_opaque=np.all(np.exp(-contribs[i][1]) == 0.0, axis=1),
+                                            model_opaque=(P >= p0), position=i))
+            out[i] = (contribs[i][0], doc)
+            cloud_model = (mtr, mdepth, P >= p0)
+    return out, cloud_model
 
 
 def run_real(spec):
@@ -365,6 +516,10 @@ def gen_reuse(rng, k):
                 v = float(min(v * 10 ** rng.uniform(-1, 1), 0.05))
             cur[name] = v
             step[name] = v
+        if 'clouds_pressure' in step and rng.random() < 0.5:
+            # the cloud top stepped exactly onto a layer pressure of the atmosphere as it is after this step
+            P = layer_pressures(base['nlayers'], cur['atm_min_pressure'], cur['atm_max_pressure'])[1]
+            cur['clouds_pressure'] = step['clouds_pressure'] = float(P[int(rng.integers(0, len(P)))])
         steps.append(step)
     return dict(kind='reuse', base=base, steps=steps, new_path_method=base['new_path_method'])
 
@@ -496,6 +651,20 @@ def judge(ctx, case, spec, m, obs, do_scale, stream):
     if not np.all((depth <= dfull * (1 + 1e-9)) & (depth >= dfull * (1 - 1e-9) - band)):
         ctx.mismatch('depth vs uncut documented integral within exp(-10) band', case,
                      dict(impl=depth, model_full=dfull, band=band))
+    # ---------------- the cross-sections the documented integral names (absorption on the grid of the run from the molecules'
+    # own tables; the cloud deck), from the Lean models, against the prepared contributions
+    real_contribs = contribs
+    contribs, cloud_model = documented_sigmas(ctx, m, spec, wn, p, real_contribs, case)
+    if cloud_model is not None:
+        mtr, mdepth, cloudy = cloud_model
+        ctx.disagreements_checked += 1
+        for l in range(n):
+            if not (trans_close(trans[l], mtr[l]) or (np.all(trans[l] <= E10 * (1 + 1e-9)) and
+                                                     np.all(mtr[l] <= E10 * (1 + 1e-9)) and not cloudy[l])):
+                ctx.mismatch('exp(-tau) with a cloud deck vs Haze.cloudyTrans', case, dict(layer=l, impl=trans[l], model=mtr[l]))
+                break
+        ctx.check_close('depth with a cloud deck vs Haze.cloudyDepth, within the licensed band', depth, mdepth, case,
+                        rel=1e-9, abs_=band)
     # ---------------- the property's own predicates, on the implementation only (numpy oracle)
     o_tau = tau_full(ipaths if okp else opaths, dens, contribs)
     with np.errstate(over='ignore'):
@@ -548,6 +717,10 @@ def judge(ctx, case, spec, m, obs, do_scale, stream):
     ctx.bucket('temperature:' + spec['temperature']['type'])
     for c in spec['contributions']:
         ctx.bucket('contrib:' + c['type'])
+    if spec.get('grid_class'):
+        ctx.bucket('quota:own-wavenumber-grids:' + spec['grid_class'])
+    if spec.get('cloud_top_class'):
+        ctx.bucket('quota:cloud-top:' + spec['cloud_top_class'])
     if np.any(trans <= E10) and np.any(trans > 0.5):
         ctx.bucket('mixed-saturated-and-clear')
 
